@@ -198,12 +198,11 @@ type tierPlan struct {
 
 func planFor(p Prop, tier string) tierPlan {
 	if tier == "thorough" {
-		seeds := 4
-		switch p.ID() {
-		case "C11":
+		// two PRNG values by default (the whole thorough tier of the 15 checks then
+		// fits in about three hours on 16 cores); `-seeds N` goes deeper
+		seeds := 2
+		if p.ID() == "C11" {
 			seeds = 1
-		case "C04", "C09":
-			seeds = 2
 		}
 		return tierPlan{seeds: seeds, cap: 3 * 3600}
 	}
